@@ -32,7 +32,7 @@ def handle (line : String) : String :=
   | "cell" :: _ | "cellops" :: _ => handleCell ws
   | "nbl" :: _ | "nbs" :: _ | "vox" :: _ => handleNb ws
   | "ang" :: _ | "dih" :: _ | "tors" :: _ => handleAng ws
-  | "sasa" :: _ => handleSasa ws
+  | "sasa" :: _ | "sasamask" :: _ => handleSasa ws
   | "qcp" :: _ | "qrot" :: _ => handleQcp ws
   | "contacts" :: _ | "allpairs" :: _ | "moments" :: _ | "drid" :: _ | "wsums" :: _ | "rdf" :: _ => handleDescr ws
   | "hbtrip" :: _ | "bh" :: _ | "wn" :: _ | "ks" :: _ => handleHb ws
